@@ -36,7 +36,22 @@ def classes():
         class Swapped:
             m: np.ndarray
             a: np.ndarray
-        _CLS.update(One=One, Two=Two, Three=Three, Narrow=Narrow, Swapped=Swapped)
+
+        def factory(swap):
+            # two different tables that share module and qualified name (a class statement executed twice)
+            if swap:
+                @npdataclass
+                class Dup:
+                    b: np.ndarray
+                    a: np.ndarray
+            else:
+                @npdataclass
+                class Dup:
+                    a: np.ndarray
+                    b: np.ndarray
+                    m: np.ndarray
+            return Dup
+        _CLS.update(One=One, Two=Two, Three=Three, Narrow=Narrow, Swapped=Swapped, DupA=factory(False), DupB=factory(True))
     return _CLS
 
 
@@ -96,6 +111,17 @@ def run(c, p):
         return fields_obs(obj.astype(C["Narrow"]), ["b"])
     if op == "astype2":
         return fields_obs(obj.astype(C["Swapped"]), ["m", "a"])
+    if op == "dup":
+        # cname is Three: the same columns in two tables of the same qualified name, used alternately
+        a, b, m = mk_fields(c, cname, c["vals"])
+        oa, ob = C["DupA"](a, b, m), C["DupB"](b, a)
+        sel = build_sel(c)
+        return (len(oa), len(ob), fields_obs(oa[sel], ["a", "b", "m"]), fields_obs(ob[sel], ["b", "a"]), fields_obs(np.concatenate([ob, ob]), ["b", "a"]),
+                fields_obs(oa[sel], ["a", "b", "m"]), bool(ob == C["DupB"](b, a)))
+    if op == "eq_shape":
+        # same length, same leading numbers, but entry i of field m is a pair in one table and a single number in the other
+        a, b, m = mk_fields(c, cname, c["vals"])
+        return obj == C[cname](a, b, m[:, :1])
     raise ValueError(op)
 
 
@@ -119,13 +145,18 @@ def expected(c, p):
         return (fs["b"],)
     if op == "astype2":
         return (fs["m"], fs["a"])
+    if op == "dup":
+        sel = build_sel(c)
+        n = len(fs["a"])
+        one = (fs["a"][sel], fs["b"][sel], fs["m"][sel])
+        return (n, n, one, (fs["b"][sel], fs["a"][sel]), (np.concatenate([fs["b"], fs["b"]]), np.concatenate([fs["a"], fs["a"]])), one, True)
 
 
 def gen(E, p):
     import z3
     cname, op = p["cls"], p["op"]
     names = FIELDS[cname]
-    n = E.concretize(E.int("n", 0 if op not in ("getitem",) or p.get("sel") != "int" else 1, p["n"]))
+    n = E.concretize(E.int("n", p.get("nmin", 0) if op not in ("getitem",) or p.get("sel") != "int" else 1, p["n"]))
 
     def cellsfor(tag, n_):
         return {f: [E.int(f"{tag}{f}{i}", -99, 99) for i in range(n_ * (2 if f == "m" else 1))] for f in names}
@@ -135,7 +166,7 @@ def gen(E, p):
         if len(set(lens)) == 1:
             raise __import__("symx.engine", fromlist=["x"]).PathPruned()
         c["vals"] = {f: [E.int(f"x{f}{i}", -99, 99) for i in range(l)] for f, l in zip(names, lens)}
-    if op == "getitem":
+    if op in ("getitem", "dup"):
         t = p["sel"]
         B = n + 1
         if t == "int":
@@ -165,6 +196,9 @@ def sym(E, p, kf):
     case = dict(p=p, c=c)
     if op == "badlen":
         return dict(goal=(got["k"] == "raise"), got=got, case=case)
+    if op == "eq_shape":
+        # the tables differ in every entry (n >= 1): anything but "equal" is accepted
+        return dict(goal=(got["k"] == "raise" or (got["k"] == "scalar" and got["val"] is False) or (got["k"] == "scalar" and not isinstance(got["val"], bool) and specs.eqv(got["val"], False))), got=got, case=case)
     if got["k"] == "raise":
         return dict(goal=False, got=got, case=case)
     if op == "eq":
@@ -181,6 +215,8 @@ def conc(case):
     got = outcome(lambda: run(c, p))
     if op == "badlen":
         return got, common.refused()
+    if op == "eq_shape":
+        return got, (common.refused() if got["k"] == "raise" else dict(k="scalar", val=False, dtype="*"))
     if op == "eq":
         names = FIELDS[p["cls"]]
         same = all(c["vals"][f] == c["more"][0][f] for f in names)
@@ -245,6 +281,10 @@ def jobs(tier, seed):
     out.append(dict(cls="Two", op="astype", n=n))
     out.append(dict(cls="Three", op="astype", n=n))
     out.append(dict(cls="Three", op="astype2", n=n))
+    for sel in ("list", "mask"):
+        out.append(dict(cls="Three", op="dup", sel=sel, n=2 if q else 3, k=2))
+    out.append(dict(cls="Three", op="dup", sel="slice", s=-1, n=2 if q else 3))
+    out.append(dict(cls="Three", op="eq_shape", n=n, nmin=1))
     js = [dict(h="C18.table", p=p) for p in out]
     js += [dict(h="C18.varlen", p=dict(k=2, n=2, w=3)), dict(h="C18.varlen", p=dict(k=3, n=2 if q else 3, w=2 if q else 3))]
     return js
